@@ -2160,10 +2160,188 @@ def generics_family(tier, seed):
             emit(rec)
 
 
+# ----------------------------------------------------------------------------------------------------------------
+# enum / flag table family (C18): the FACTORIES of the five providers run (creation stage), the tables the handed-out
+# closures captured are read from their cells; no loader or dumper is ever called
+
+def _enc_enumish(v, depth=0):
+    import enum
+    if isinstance(v, enum.Enum):
+        return {"m": type(v).__name__ + "." + str(v.name), "val": repr(v.value), "cls": type(v).__name__}
+    t = type(v)
+    if v is None:
+        return {"none": True, "r": "None"}
+    if t is bool:
+        return {"b": v, "r": repr(v)}
+    if t is int:
+        return {"i": v, "r": repr(v)}
+    if t is str:
+        return {"s": v, "r": repr(v)}
+    if depth < 3 and isinstance(v, (dict, MappingProxyType)):
+        return {"d": [[_enc_enumish(k, depth + 1), _enc_enumish(x, depth + 1)] for k, x in v.items()], "r": repr(v)[:80]}
+    if depth < 3 and isinstance(v, (list, tuple)):
+        return {"l": [_enc_enumish(x, depth + 1) for x in v], "t": t.__name__, "r": repr(v)[:80]}
+    if isinstance(v, type):
+        return {"cls": v.__name__}
+    return {"r": repr(v)[:80], "t": t.__name__}
+
+
+def _cells(fn):
+    if fn is None or not hasattr(fn, "__code__"):
+        return {"not_a_function": repr(fn)[:80], "name": getattr(fn, "__name__", None),
+                "module": getattr(fn, "__module__", None)}
+    out = {}
+    for name, cell in zip(fn.__code__.co_freevars, fn.__closure__ or ()):
+        try:
+            out[name] = _enc_enumish(cell.cell_contents)
+        except ValueError:
+            out[name] = {"empty": True}
+    return {"cells": out, "name": fn.__name__}
+
+
+def enumtables_family(tier, seed):
+    import enum
+    from enum import Enum, Flag, IntEnum, IntFlag
+
+    from adaptix import NameStyle
+    from adaptix._internal.morphing import enum_provider as ep
+    from adaptix._internal.provider.essential import CannotProvide
+
+    class Color(Enum):
+        RED = 1
+        GREEN_LIGHT = 2
+        BLUE_ = 3
+
+    class Crossed(str, Enum):   # the value of one member is the name of another one
+        A = "B"
+        B = "x"
+        C_D = "A"
+
+    class Other(str, Enum):     # homonyms of Crossed with hash-equal values
+        A = "B"
+        B = "x"
+
+    class Num(IntEnum):
+        ZERO = 0
+        ONE = 1
+        TWO = 2
+        UNO = 1                 # alias
+
+    class Mixed(Enum):
+        N = None
+        T = (1, 2)
+        S = "s"
+        FALSE = False
+
+    class Unhashable(Enum):
+        L = [1]
+        M = {"a": 1}
+
+    class Perm(Flag):
+        R = 4
+        W = 2
+        X = 1
+
+    class WithZero(Flag):
+        NONE = 0
+        A = 1
+        B_FLAG = 2
+
+    class Compound(Flag):
+        A = 1
+        B = 2
+        AB = 3
+        C = 4
+        ALL = 7
+
+    class MultiBit(Flag):
+        A = 1
+        BC = 6
+
+    class IPerm(IntFlag):
+        R = 4
+        W = 2
+        X = 1
+        RWX = 7
+
+    class Aliased(Flag):
+        A = 1
+        B = 2
+        ALSO_A = 1
+
+    class Skipped(Flag):
+        A = 1
+        C = 4
+
+    enums = [Color, Crossed, Num, Mixed, Unhashable]
+    flags = [Perm, WithZero, Compound, MultiBit, IPerm, Aliased, Skipped]
+    if tier == "thorough":
+        import random
+        rnd = random.Random(seed)
+        for k in range(12):
+            n = rnd.randint(1, 5)
+            names = rnd.sample(["A", "B_B", "C", "D_E_F", "G_", "H", "I_J"], n)
+            bits = rnd.sample([1, 2, 4, 8, 16], n)
+            body = {nm: b for nm, b in zip(names, bits)}
+            if rnd.random() < 0.5 and n >= 2:
+                body["COMBO"] = bits[0] | bits[1]
+            if rnd.random() < 0.3:
+                body["NIL"] = 0
+            flags.append(Flag(f"Rnd{k}", body))
+
+    def members_of(cls):
+        return [[name, m.name, repr(m.value), m.value if type(m.value) in (int, bool) else None]
+                for name, m in cls.__members__.items()]
+
+    def gens(cls):
+        first = next(iter(cls.__members__.values()))
+        out = [("plain", {}, {}), ("upper", {"name_style": NameStyle.UPPER_SNAKE}, {"style": "upper_snake"}),
+               ("camel", {"name_style": NameStyle.CAMEL}, {"style": "camel"}),
+               ("kebab", {"name_style": NameStyle.LOWER_KEBAB}, {"style": "lower_kebab"}),
+               ("map_name", {"map": {first.name: "first!"}}, {"by_name": {first.name: "first!"}}),
+               ("map_member", {"map": {first: "1st"}, "name_style": NameStyle.CAMEL},
+                {"by_member": {first.name: "1st"}, "style": "camel"}),
+               ("map_empty", {"map": {first: ""}}, {"by_member": {first.name: ""}}),
+               ("map_foreign", {"map": {Other.A: "foreign", Other.B: "foreign2"}}, {}),
+               ("map_absent_name", {"map": {"NO_SUCH": "zzz"}}, {})]
+        return out
+
+    def attempt(f):
+        try:
+            return {"fn": _cells(f())}
+        except CannotProvide as e:
+            return {"refused": str(getattr(e, "message", e))[:120]}
+        except Exception as e:  # noqa: BLE001
+            return {"error": f"{type(e).__name__}: {e}"[:200]}
+
+    for cls in enums + flags:
+        is_flag = issubclass(cls, Flag)
+        base = {"kind": "enumtable", "cls": cls.__name__, "flag": is_flag, "members": members_of(cls)}
+        for gname, kwargs, odesc in gens(cls):
+            gen = ep.ByNameEnumMappingGenerator(**kwargs)
+            if not is_flag:
+                prov = ep.EnumNameProvider(gen)
+                emit({**base, "provider": "name", "cfg": gname, "oracle": odesc,
+                      "loader": attempt(lambda: prov._make_loader(cls)), "dumper": attempt(lambda: prov._make_dumper(cls))})
+            else:
+                for compound in (True, False):
+                    prov = ep.FlagByListProvider(gen, allow_compound=compound)
+                    emit({**base, "provider": "flag_list", "cfg": gname, "oracle": odesc, "allow_compound": compound,
+                          "loader": attempt(lambda: prov._make_loader(cls, strict_coercion=True)),
+                          "dumper": attempt(lambda: prov._make_dumper(cls))})
+        if not is_flag:
+            prov = ep.EnumExactValueProvider()
+            emit({**base, "provider": "exact", "cfg": "-", "loader": attempt(lambda: prov._make_loader(cls)),
+                  "dumper": attempt(lambda: prov._make_dumper(cls))})
+        else:
+            prov = ep.FlagByExactValueProvider()
+            emit({**base, "provider": "flag_exact", "cfg": "-", "loader": attempt(lambda: prov._make_loader(cls))})
+
+
 FAMILIES = {"soundness": soundness_family, "generics": generics_family,
             "loader": loader_family, "dumper": dumper_family, "literal": literal_family, "hostile": hostile_family,
             "broach": broach_family, "converter": converter_family, "convpipe": convpipe_family,
-            "layoutpipe": layoutpipe_family, "kinds": kinds_family}
+            "layoutpipe": layoutpipe_family, "kinds": kinds_family, "enumtables": enumtables_family}
 
 
 def main():
